@@ -11,6 +11,43 @@ NOTE_COMMON = ("Trusted: Lean 4.33 kernel (axioms propext, Classical.choice, Quo
                "facts regenerated from the source, not proved. ")
 
 CLAIMS = {
+    "C01": dict(
+        text="PARTIAL: soundness proved, completeness not. Machine-checked (Lean 4), for EVERY grammar over the combinator set (no "
+             "well-formedness hypothesis; direct/indirect/hidden left recursion, cyclic and nullable rules, ambiguity), every input, "
+             "left-recursion context, fuel and reachable cache state: every tree the parser core returns is a derivation of the "
+             "parser at the call position in the declarative semantics Spec/Derives (c01_sound, c01_cache_sound: the result cache "
+             "only ever holds derivations, so cache hits are sound), starts at the call position, has nested contiguous children, "
+             "lies within the file and its leaves spell exactly the consumed input (c01_spans); errors lie between the call position "
+             "and end of file (c01_error_positions). NOT proved: completeness (every derivation's end position / tree is returned) - "
+             "its statement is kept in Props/C01.lean; it is decided on every run by an independent least-fixpoint derivation table "
+             "computed in Go over (sub-term, start, end) and compared with the implementation's results, plus the model/implementation "
+             "differential on ordered result lists, curtailing sets and call counts - bounded exploration, not proof.",
+        note="Derives is the monotone reading (Choice as Any, repetitions may stop wherever lenCheck allows): soundness is claimed against "
+             "it. TermGood (terminals return well-positioned leaves) is a hypothesis of c01_spans, proved of the built-in terminals by C08.",
+        technique="Lean 4 invariant proofs by induction on fuel over the executable parser model (cache invariant, loop principles for Any/Choice/Sequence) + derivation oracle + differential correspondence + regenerated facts"),
+    "C02": dict(
+        text="PARTIAL: the re-entry bound is proved, termination itself is not. Machine-checked (Lean 4), for every grammar over the "
+             "combinator set and every input: whenever the parser core answers, no memoized parser was ever active more than "
+             "(remaining input + 2) times at one position (c02_reentry; ghost activation stack maintained by the model's Memoize, "
+             "the bound is attained on P -> P b | a), every call restores the activation stack (c02_balanced), and fuel bounds "
+             "recursion depth only - a larger fuel never changes an answer (c02_fuel_mono). The slack constant and the reset condition "
+             "are regenerated from the source (c02_slack: curtailSlack <= 1 by decide; c02_facts). NOT proved: that some fuel always "
+             "suffices for certified grammars (statement kept in Props/C02.lean). Every generated certified grammar is executed on the "
+             "real library under a stack limit, timeout and an activation probe inside every Memoize whose maxima are compared with "
+             "the model's ghost counters - bounded exploration for the termination half.",
+        note="What stack depth is fatal is runtime; the theorem bounds activations, the harness observes the process.",
+        technique="Lean 4 invariant proof (activation stack vs left-recursion context) by induction on fuel + activation probes in the differential run + regenerated facts"),
+    "C04": dict(
+        text="Machine-checked (Lean 4): parsley.Parse returns exactly one of node / error for EVERY grammar, input, fuel and initial "
+             "state (c04_xor); a Sentence-rooted success starts at the first byte, ends at end of input and wraps a derivation of the "
+             "wrapped parser that consumes the whole input (c04_sentence_sound, c04_sentence_only_if: Sentence succeeds ONLY IF such a "
+             "derivation exists); Evaluate never panics on a tree whose non-terminals carry applicable interpreters - Select in range, "
+             "Object over key/value nodes with string keys, Array, Nil, any custom interpreter that does not panic itself (c04_eval, "
+             "c04_eval_root), and does panic without an interpreter (c04_eval_needs_interpreter). PARTIAL on one point: the IF "
+             "direction of the Sentence iff is C01's completeness and is not proved (statement kept); the harness's derivation oracle "
+             "decides it per case (known finding D9: Name/Single over Optional).",
+        note="c04_sentence_sound needs Scope (no trims, TermGood terminals); c04_xor needs nothing.",
+        technique="Lean 4 theorems over the parse/evaluate model (case analysis of Parse, derivation inversion for Sentence, induction for the evaluator) + oracle on the real Parse/Evaluate under recover + differential correspondence"),
     "C09": dict(
         text="Machine-checked proof (Lean 4) that every reader primitive of the model (own cursor computation, own guards, every index "
              "through get?) equals a byte-level specification over the rest of the file, stays within the file and never indexes "
